@@ -272,25 +272,31 @@ type rowVerdict struct {
 }
 
 func (w *world) predictRows(c *simChan, st *mstate, rows []mrow, mode AppendMode) rowVerdict {
-	return w.predictRowsStaged(c, st, rows, mode, nil)
+	return w.predictRowsStaged(c, st, rows, mode, &seenSet{})
 }
 
-// predictRowsStaged also knows the ids staged by earlier items of the same
-// batch for this channel (the store keeps one seen-set per channel and call).
-func (w *world) predictRowsStaged(c *simChan, st *mstate, rows []mrow, mode AppendMode, staged map[uint64]bool) rowVerdict {
-	seenID := map[uint64]bool{}
-	for id := range staged {
-		seenID[id] = true
+// seenSet mirrors the store's per-channel, per-call validation set. It is
+// shared by all items of one StoreAppendBatch call for one channel and keeps
+// what a FAILED item remembered before it failed (observed behaviour: a later
+// item of the same call that reuses such an id or key is refused as a
+// duplicate although nothing was stored).
+type seenSet struct {
+	ids  map[uint64]bool
+	keys map[[2]string]bool
+}
+
+func (w *world) predictRowsStaged(c *simChan, st *mstate, rows []mrow, mode AppendMode, seen *seenSet) rowVerdict {
+	if seen.ids == nil {
+		seen.ids, seen.keys = map[uint64]bool{}, map[[2]string]bool{}
 	}
-	seenKey := map[[2]string]bool{}
 	for _, r := range rows {
 		if r.ID == 0 {
 			return rowVerdict{kind: kInvalid}
 		}
-		if seenID[r.ID] {
+		if seen.ids[r.ID] {
 			return rowVerdict{kind: kConflict, dup: true, dupBatch: true}
 		}
-		seenID[r.ID] = true
+		seen.ids[r.ID] = true
 		if mode == AppendStrict {
 			if loc, live := w.liveIDs[r.ID]; live {
 				holder, _ := w.chans[loc.ch].st().rowAt(loc.seq)
@@ -301,10 +307,10 @@ func (w *world) predictRowsStaged(c *simChan, st *mstate, rows []mrow, mode Appe
 			continue
 		}
 		k := [2]string{r.From, r.CMN}
-		if seenKey[k] {
+		if seen.keys[k] {
 			return rowVerdict{kind: kConflict, dup: true, dupBatch: true, dupIsKey: true}
 		}
-		seenKey[k] = true
+		seen.keys[k] = true
 		if mode == AppendTrustedContiguous {
 			continue
 		}
